@@ -624,7 +624,10 @@ def check_add_order(ctx, rng):
     case = {"add_order": [[list(p), r, n] for (p, r), n in items]}
     ctx.case(case, nontrivial=len({p for (p, _r) in decl}) >= 2)
     ctx.count("add_order: %d declarations" % len(items))
-    for order in orders:
+    answers = ctx.driver.batch([{"op": "storage_map", "decls": [[list(p), r, n] for (p, r), n in order], "probes": [list(k) for k in probes]}
+                                for order in orders])
+    for order, ans in zip(orders, answers):
+        impl_rows = []
         sm = StorageMapping()
         for (pfx, role), name in order:
             getattr(sm, "add_" + role)(FileStorage(pfx, stores.fs_local(), "/nowhere/" + name))
@@ -635,9 +638,12 @@ def check_add_order(ctx, rng):
             except StorageKeyError:
                 got = {"data": None, "cache": None, "remote": None}
             exp = {r: want(key, r) for r in ("data", "cache", "remote")}
+            impl_rows.append(got if any(got.values()) or any(key[:len(p)] == p for (p, _r), _n in items) else None)
             ctx.oracle(got == exp, case, {"why": "a key does not resolve, per role, to the storage declared at its longest prefix declaring that role "
                                                  "(the outcome depends on the order of the add_* calls)",
                                           "key": list(key), "order": [[list(p), r, n] for (p, r), n in order], "got": got, "expected": exp})
+        ctx.corr("StorageMap.build/resolve~StorageMapping.add_*/__getitem__", {**case, "order": [[list(p), r, n] for (p, r), n in order]},
+                 impl_rows, ans.get("resolved", ans))
 
 
 def run(ctx):
